@@ -58,6 +58,10 @@ if m.get('expected')=='undecided':
     # a restructuring that makes clauses of the function stale: the checks must not be
     # silent about it (exit 2, UNDECIDED), but it is not counted as a detected violation
     sys.exit(0 if r.get('exit')==2 or r['caught'] else 1)
+if m.get('expected')=='masked-by-known-finding':
+    # a genuine change inside a recorded, test-pinned defect: the obligation that states the rule
+    # already fails as KNOWN-FINDING; listed as not caught, with the reason in meta.json
+    sys.exit(0)
 if m.get('expected')=='not-a-violation':
     # kept in the corpus as a reminder: the change does not break the property as quantified
     sys.exit(0 if not r['caught'] else 0)
